@@ -6,11 +6,14 @@ import (
 	"fmt"
 	"math"
 	"os"
+	"runtime"
 	"strconv"
 	"strings"
+	"sync"
 	"time"
 
 	"github.com/innovationb1ue/RedisGO/config"
+	"github.com/innovationb1ue/RedisGO/memdb"
 	"github.com/innovationb1ue/RedisGO/resp"
 	"github.com/innovationb1ue/RedisGO/server"
 )
@@ -19,6 +22,53 @@ type execResult struct {
 	reply string
 	t0    int64
 	t1    int64
+	ev    string
+}
+
+// goid parses the current goroutine's id from its stack header ("goroutine 123 [running]:")
+func goid() int64 {
+	var buf [64]byte
+	n := runtime.Stack(buf[:], false)
+	var id int64
+	for _, c := range buf[len("goroutine "):n] {
+		if c < '0' || c > '9' {
+			break
+		}
+		id = id*10 + int64(c-'0')
+	}
+	return id
+}
+
+// event recorder (hook H2): lock operations and keyspace map accesses of ONE goroutine (the command's), in order
+type evRecorder struct {
+	mu   sync.Mutex
+	gid  int64
+	evs  []string
+	db   *memdb.MemDb
+	pass bool
+}
+
+var recorder evRecorder
+
+func (r *evRecorder) hook(kind string, cm *memdb.ConcurrentMap, key string, pos int) {
+	if !r.pass {
+		return
+	}
+	g := goid()
+	r.mu.Lock()
+	defer r.mu.Unlock()
+	if g != r.gid || r.db == nil {
+		return
+	}
+	switch kind {
+	case "L", "U", "RL", "RU":
+		r.evs = append(r.evs, fmt.Sprintf("%s%d", kind, pos))
+	default:
+		name := r.db.VerifMapName(cm)
+		if name == "db" || name == "ttl" {
+			r.evs = append(r.evs, fmt.Sprintf("%s:%s:%d", kind, name, r.db.VerifLockPos(key)))
+		}
+	}
 }
 
 func execOne(mgr *server.Manager, argv [][]byte) (res execResult) {
@@ -35,6 +85,17 @@ func execOne(mgr *server.Manager, argv [][]byte) (res execResult) {
 			}
 			done <- r
 		}()
+		if recorder.pass {
+			recorder.mu.Lock()
+			recorder.gid, recorder.evs, recorder.db = goid(), nil, mgr.CurrentDB
+			recorder.mu.Unlock()
+			defer func() {
+				recorder.mu.Lock()
+				r.ev = strings.Join(recorder.evs, ",")
+				recorder.gid = -1
+				recorder.mu.Unlock()
+			}()
+		}
 		r.t0 = time.Now().Unix()
 		var out resp.RedisData = mgr.ExecCommand(context.Background(), argv, nil)
 		r.t1 = time.Now().Unix()
@@ -151,6 +212,19 @@ func runExec(args []string) {
 	defer out.Flush()
 	var mgr *server.Manager
 	dead := false
+	if os.Getenv("VERIF_EVENTS") != "" {
+		recorder.pass = true
+		memdb.VerifEventHook = recorder.hook
+	}
+	evField := func(r execResult) string {
+		if !recorder.pass {
+			return ""
+		}
+		if r.ev == "" {
+			return " ev=-"
+		}
+		return " ev=" + r.ev
+	}
 	for in.Scan() {
 		line := in.Text()
 		f := strings.Fields(line)
@@ -179,11 +253,11 @@ func runExec(args []string) {
 			r := execOne(mgr, argv)
 			if r.reply == "PANIC" || r.reply == "HANG" {
 				dead = true
-				fmt.Fprintf(out, "%s => %d %d %s - fl=-\n", line, r.t0, r.t1, r.reply)
+				fmt.Fprintf(out, "%s => %d %d %s - fl=-%s\n", line, r.t0, r.t1, r.reply, evField(r))
 				out.Flush()
 				continue
 			}
-			fmt.Fprintf(out, "%s => %d %d %s %s %s\n", line, r.t0, r.t1, r.reply, dumpKeys(mgr, f[1]), floatAnn(argv))
+			fmt.Fprintf(out, "%s => %d %d %s %s %s%s\n", line, r.t0, r.t1, r.reply, dumpKeys(mgr, f[1]), floatAnn(argv), evField(r))
 		}
 	}
 }
